@@ -259,7 +259,7 @@ PROPS = {
                      "MiniMoka.ConcL.C09_all_return", "MiniMoka.ConcL.C09_flag_released",
                      "MiniMoka.ConcL.C09_table_ok"],
         "components": [("sync", ["oversize", "burst", "churn", "growth", "mixed"], 40, 60),
-                       ("sync", ["big", "batch"], 6, 40), ("sync", ["expnext", "boundary", "synced"], 30, 50),
+                       ("sync", ["big", "batch"], 6, 40), ("sync", ["expnext", "boundary", "synced"], 30, 50), ("sync", ["monoburst"], 6, 50),
                        ("stall", ["leave"], 12, 0)],
         "projection": "state",
         "oracle": "C08",
